@@ -4,6 +4,7 @@ package c18
 import (
 	"errors"
 	"fmt"
+	"math"
 	"strings"
 	"testing"
 	"time"
@@ -71,7 +72,18 @@ type WrapCase struct {
 	// Z (Before only): 0 = the callback never returns the zero value, 1 = its first run returns 0,
 	// 2 = its nth (last promised) run returns 0. Every run still returns a value of its own.
 	Z int `json:"z,omitempty"`
+	// CK (Before only): how the cache was made (index into cacheKinds); with CK != 0 DeleteExpired runs after every call.
+	CK int `json:"ck,omitempty"`
+	// Again (Before only): after the calls, a second counter starting at Again is used up on the SAME cache (Again+2 calls).
+	// The memo slot is taken, so only the number of runs is asserted for it: each of its first Again calls runs fn once.
+	Again int `json:"again,omitempty"`
 }
+
+// cacheKinds: default lifetimes of the cache handed to Before/Once. Everything that is not positive means "entries never
+// expire" (cache.New: "less than zero (or NoExpiration)"; 0 likewise); one hour is positive but outlives every case.
+var cacheKinds = []time.Duration{cache.NoExpiration, 0, -time.Second, math.MinInt64, time.Hour, -2}
+
+func kindName(k int) string { return fmt.Sprintf("cache.New(default lifetime %d ns, no cleanup)", int64(cacheKinds[k])) }
 
 func (c WrapCase) norm() WrapCase {
 	// int8 is the narrowest counter: keep n and n-calls away from its limits, the
@@ -80,6 +92,8 @@ func (c WrapCase) norm() WrapCase {
 	c.Calls = clamp(c.Calls, 0, wideCalls)
 	c.VT = clamp(c.VT, 0, len(counterTypes)-1)
 	c.Z = clamp(c.Z, 0, 2)
+	c.CK = clamp(c.CK, 0, len(cacheKinds)-1)
+	c.Again = clamp(c.Again, 0, 60)
 	return c
 }
 
@@ -87,6 +101,12 @@ func (c WrapCase) String() string {
 	z := ""
 	if c.Z != 0 {
 		z = fmt.Sprintf(", run %s returns the zero value", [3]string{"", "1", "n"}[c.Z])
+	}
+	if c.CK != 0 {
+		z += ", " + kindName(c.CK) + " swept after every call"
+	}
+	if c.Again != 0 {
+		z += fmt.Sprintf(", then a second counter n=%d on the same cache", c.Again)
 	}
 	return fmt.Sprintf("n=%d (%s counter), %d calls%s", c.N, counterTypes[c.VT], c.Calls, z)
 }
@@ -99,12 +119,16 @@ func enumWrap(s pbt.Src, thorough bool) WrapCase {
 func enumBefore(s pbt.Src, thorough bool) WrapCase {
 	c := enumWrap(s, thorough)
 	c.Z = s.Intn(3)
+	c.CK = s.Intn(len(cacheKinds))
+	c.Again = s.Intn(3)
 	return c
 }
 
 func genBefore(s pbt.Src, thorough bool) WrapCase {
 	c := genWrap(s, thorough)
 	c.Z = s.Intn(3)
+	c.CK = s.Intn(len(cacheKinds))
+	c.Again = pbt.Pick(s, 0, 0, 1, 2, 3, 7)
 	return c
 }
 
@@ -187,7 +211,7 @@ func afterProp(c WrapCase, r *pbt.R) error {
 // result) and never again; later calls return the result of the nth run.
 func beforeRun[V signed](c WrapCase) error {
 	n := V(c.N)
-	cc := cache.New[string, int](cache.NoExpiration, 0)
+	cc := cache.New[string, int](cacheKinds[c.CK], 0)
 	count := 0
 	// every run returns a value of its own; with Z != 0 one chosen run returns the zero value
 	zeroAt := [3]int{-1000, 1, c.N}[c.Z]
@@ -224,6 +248,24 @@ func beforeRun[V signed](c WrapCase) error {
 		default:
 			// n <= 0: the callback never ran, there is no "last run"; the statement
 			// leaves the returned value open.
+		}
+		if c.CK != 0 {
+			cc.DeleteExpired()
+		}
+	}
+	if c.Again > 0 {
+		n2 := V(c.Again)
+		for i := 1; i <= c.Again+2; i++ {
+			before := count
+			gogu.Before(&n2, cc, fn)
+			ran, want := count-before, 0
+			if i <= c.Again {
+				want = 1
+			}
+			if ran != want {
+				return fmt.Errorf("Before, %v: call %d of the second counter ran the callback %d time(s), want %d (it runs on each of the first %d calls and never again)",
+					c, i, ran, want, c.Again)
+			}
 		}
 	}
 	return nil
@@ -268,13 +310,17 @@ type OnceCase struct {
 	// Sweep: the cache is created with a default lifetime of 0 (entries never expire) instead of NoExpiration, and
 	// DeleteExpired is called after every call of Once: a sweep must not remove an entry that has no deadline.
 	Sweep bool `json:"sweep,omitempty"`
+	// CK (with Sweep): which non-expiring or long-lived cache (index into cacheKinds; 0 means kind 1, default lifetime 0)
+	CK int `json:"ck,omitempty"`
 }
 
 func onceProp(c OnceCase, r *pbt.R) error {
 	calls := clamp(c.Calls, 0, hardMaxCall)
 	cc := cache.New[string, int](cache.NoExpiration, 0)
+	kind := 0
 	if c.Sweep {
-		cc = cache.New[string, int](0, 0)
+		kind = clamp(c.CK, 1, len(cacheKinds)-1)
+		cc = cache.New[string, int](cacheKinds[kind], 0)
 	}
 	count := 0
 	first := 0
@@ -294,7 +340,7 @@ func onceProp(c OnceCase, r *pbt.R) error {
 			want = 1
 		}
 		if ran != want {
-			return fmt.Errorf("Once, %d calls on a fresh non-expiring cache (first result zero: %v; DeleteExpired after every call: %v): call %d ran the callback %d time(s), want %d", calls, c.Zero, c.Sweep, i, ran, want)
+			return fmt.Errorf("Once, %d calls on a fresh %s (first result zero: %v; DeleteExpired after every call: %v): call %d ran the callback %d time(s), want %d", calls, kindName(kind), c.Zero, c.Sweep, i, ran, want)
 		}
 		if i == 1 {
 			first = 100 + count // result of the first (and only) run
@@ -303,7 +349,7 @@ func onceProp(c OnceCase, r *pbt.R) error {
 			}
 		}
 		if got != first {
-			return fmt.Errorf("Once, %d calls on a fresh non-expiring cache: call %d returned %d, want the first result %d", calls, i, got, first)
+			return fmt.Errorf("Once, %d calls on a fresh %s: call %d returned %d, want the first result %d", calls, kindName(kind), i, got, first)
 		}
 		if c.Sweep {
 			cc.DeleteExpired()
@@ -664,26 +710,28 @@ func TestProp(t *testing.T) {
 		},
 		&pbt.Check[WrapCase]{
 			Name: "before",
-			Rule: "Before(&n, cache, fn) called k times in a row on a fresh non-expiring cache (no cleanup goroutine); fn counts its invocations and returns a value of its own each time (x 3: never the zero value / its first run returns 0 / its nth run returns 0); " +
+			Rule: "Before(&n, cache, fn) called k times in a row on a fresh cache without cleanup goroutine (x 6 ways of making it: NoExpiration, or a default lifetime of 0, -1s, the most negative Duration, -2ns or one hour with DeleteExpired after every call - none of these entries may expire or be swept), optionally followed by a second counter (1, 2; random up to 7) used up on the same cache, for which only the number of runs is asserted; fn counts its invocations and returns a value of its own each time (x 3: never the zero value / its first run returns 0 / its nth run returns 0); " +
 				scopeText + " x every k in 0..12 (0..24) x counter type int/int8/int64; random: n in -20..40, k in 0..60. " +
 				"Oracle: call i runs fn exactly once iff i <= n and then returns that result; every later call runs nothing and (n >= 1) returns the result of the nth run; for n <= 0 the returned value is not asserted. " +
 				"Non-trivial = at least one call was made.",
-			Enum: enumWrap, Gen: genWrap, Prop: beforeProp, OutOfEnum: wrapOutOfEnum,
+			Enum: enumBefore, Gen: genBefore, Prop: beforeProp, OutOfEnum: func(c WrapCase, thorough bool) bool { return wrapOutOfEnum(c, thorough) || c.Again > 2 },
 			RapidQuick: 300, RapidThorough: 20000,
 			Fixed: []WrapCase{{N: 1, Calls: 2}, {N: 3, Calls: 6}, {N: 0, Calls: 2}, {N: 2, Calls: 5, Z: 2}},
 		},
 		&pbt.Check[OnceCase]{
 			Name: "once",
 			Rule: "Once(cache, fn) called k times in a row on a fresh non-expiring cache with a new counting closure per call returning a fresh value (the first run returns either a non-zero value or the zero value 0 of the int result type); " +
-				"enumerated: every k in 0..12 (thorough 0..64) x {non-zero, zero first result} x {NoExpiration cache, cache with default lifetime 0 swept by DeleteExpired after every call}; random: k in 0..400. Oracle: exactly one invocation (during the first call), every call returns the first result. " +
+				"enumerated: every k in 0..12 (thorough 0..64) x {non-zero, zero first result} x {NoExpiration cache, cache with a default lifetime of 0, -1s, the most negative Duration, -2ns or one hour swept by DeleteExpired after every call}; random: k in 0..400. Oracle: exactly one invocation (during the first call), every call returns the first result. " +
 				"Non-trivial = at least one call was made.",
 			Enum: func(s pbt.Src, thorough bool) OnceCase {
 				if thorough {
-					return OnceCase{Calls: pbt.Range(s, 0, 64), Zero: pbt.Bool(s), Sweep: pbt.Bool(s)}
+					return OnceCase{Calls: pbt.Range(s, 0, 64), Zero: pbt.Bool(s), Sweep: pbt.Bool(s), CK: s.Intn(len(cacheKinds))}
 				}
-				return OnceCase{Calls: pbt.Range(s, 0, 12), Zero: pbt.Bool(s), Sweep: pbt.Bool(s)}
+				return OnceCase{Calls: pbt.Range(s, 0, 12), Zero: pbt.Bool(s), Sweep: pbt.Bool(s), CK: s.Intn(len(cacheKinds))}
 			},
-			Gen:  func(s pbt.Src, _ bool) OnceCase { return OnceCase{Calls: pbt.Range(s, 0, 400), Zero: pbt.Bool(s), Sweep: pbt.Bool(s)} },
+			Gen: func(s pbt.Src, _ bool) OnceCase {
+				return OnceCase{Calls: pbt.Range(s, 0, 400), Zero: pbt.Bool(s), Sweep: pbt.Bool(s), CK: s.Intn(len(cacheKinds))}
+			},
 			Prop: onceProp,
 			OutOfEnum: func(c OnceCase, thorough bool) bool {
 				if thorough {
